@@ -90,12 +90,69 @@ def exec_cases():
           'id(one()) + id(two())', 'cnt(one(), two(), t())', 'cnt(one(), boom(), two())', 'one() + boom() + two()', 'boom() + one()', 't() || two()', 't() || boom()', 'f() && boom()', 'f() && t()', 't() || 1/0 > 0', 'one() - two()', 'two() % one()',
           'one', 'one + two', 'nope', 'nope == nope', 'nope()', 'min(one, two())',
           'one += two()', 'one = two()', 'one -= id(two()); one', 'x = 1; one *= cnt(x = 5, two()); [x, one]', 't = f() ? one() : two(); t', 'boom = one()', 'boom += one()', 'one += boom()',
+          # statements that are a bare provider name (C06/C07: it is evaluated, its failure stops the program)
+          'x = 1; boom; x = 2; x', 'boom; y = 5', 'one; two(); 3', '1; boom', 'boom; 1', 'x = 1; one; x', 'nope; 2', "'s'; boom; 3", 'x = one; boom; x',
+          # membership over elements with effects (C07: every element is evaluated, left to right, before the test)
+          'one() in [one(), two(), t()]', '2 in [1, 2, boom()]', 'seen = 2 in [1, 2, boom()]; one()', 'two() in [one(), boom()]', 'one() not in [two(), one(), cnt()]', 'x = 1; 1 in [x = 2, x, 1]; x', 'one() in [cnt(one(), two())]',
+          't() && boom()', 'f() || boom()', 't() || f()', 'f() && t() && boom()', '[t() && f(), two()]', 'x = t() || (y = 1) == 1; y',
+          # numbers that are not plain decimals (C09: rejected, never truncated or routed through floating point)
+          '1e5', '1E5', '10e-3', '2e+3', '1.5E6', '1e', '1e+', '1.5e-4294967295', '0.25E-4294967294', '3 + 1.5e-4294967295 * 2', '1e28', '1e-28', '123456789012345678e1 == 1234567890123456780',
+          '1.2.3', '1..2', 'x = 1.2.3; x', '1.2.3 + 1', '12abc', '1_000', '1.', '.5', '1.e1', '79228162514264337593543950336', '79228162514264337593543950335', '7922816251426433759354395033.5', '0.0000000000000000000000000001', '1.0000000000000000000000000000',
+          'boomT()', 'boomP()', 'boomT', 'sum(1, boomT())', 'min(boomP(), 1)', '[boomT(), one()]', 'x = boomP(); x', 'boomT() ? 1 : 2', 'max(1, 2) + boomP()',
           'boom', 'cnt(boom, two())', 'id(boom)', '[one, boom, two()]', '{one: boom}', 'boom + one()', 'one() + boom', 'true ? boom : 1', 'false ? boom : two()', 'boom ? 1 : 2', 'x = 1; y = boom; z = two(); 4', 'x = boom', '-boom', 'boom++', 'cnt(one, two, t)', 't ? one : two',
           'x = 1', 'x = 1; x', 'x = 1; y = x + 1; y', 'x = 1; x += 2; x', 'x = 6; x -= 1; x *= 3; x %= 4; x', 'x = 8; x /= 2; x', 'x = 6; x &= 3; x |= 8; x ^= 1; x', 'x = y = 3', 'x = 1; x = true; x', 'x += 1', 'x = 1; x += true', 'x = 1; x += true; x',
           '1 = 2', '(x) = 2; x', 'f() = 1', "x = 1; boom(); y = 2", 'x = 1; y = boom(); x', 'x = one(); y = two(); [y, x]', 'x = 1; x += ((x = 10) == 0 ? 1 : 2); x', 'x = 1; x = x + (x = 5) ; x', 'x = 2; [x, x = 3, x]', 'a = 1; [1/0, a = 2, two()]', 'a = 1; a',
           'nope ? one() : two()', 'nope && true', 'true && nope', 'AND [true, nope]', 'OR [false, nope]', '!nope', '-nope', '+nope', 'nope + 1', 'nope < 1', 'sum(1, 2, nope)', 'min(nope)', 'nope ++', "nope beginWith 'a'", 'nope | 1', 'x = nope; x', 'x = nope; x ? 1 : 2',
           'a = 5.5; a %= 2; a', 'a = 7; a %= 0.2; a', 'a = 1.5; a += 1.5; a |= 4; a', 'a = 2.5; a *= 2; a << 1', 'a = 7.5; a -= 0.5; a & 3', 'a = 9; a /= 2; a', 'a = 1000000000000000000000000007; a %= 10; a', 'x = y = 3; [x, y]', 'y = 1; x = y &= 3; [x, y]', 'y = 6; z = x = y |= 1; [z, x, y]', 'y = 1; x = y <<= 2; [x, y]', 'x = y += 3; [x, y]',
           '', '1; 2', '1; 2;', 'x = 1;', "'a' == 'a'", "'a' != 'b'", '[1, 2] == [1, 2]', '[1, 2] == [1, 2.0]', '{1: 2} == {1: 2}', 'nope == 1', 'true == 1', '1 == true']
+    return c
+
+def boundary_exec_cases():
+    """every arithmetic / bit operator over the edges of the integer ranges (C04, C03)"""
+    B = ['0', '1', '(-1)', '2', '63', '64', '2147483647', '2147483648', '4294967295', '4294967296', '4294967297', '(-4294967296)', '9223372036854775807', '9223372036854775808',
+         '(-9223372036854775807)', '(-9223372036854775808)', '18446744073709551615', '18446744073709551616', '79228162514264337593543950335', '(-79228162514264337593543950335)', '0.5', '(-0.5)']
+    c = []
+    for op in ['+', '-', '*', '/', '%']:
+        for a in B:
+            for b in B:
+                c.append('%s %s %s' % (a, op, b))
+    small = ['0', '1', '(-1)', '2', '63', '64', '(-64)', '4294967296', '4294967297', '(-4294967295)', '9223372036854775807', '(-9223372036854775808)', '9223372036854775808', '18446744073709551616', '0.5']
+    for op in ['<<', '>>', '&', '|', '^']:
+        for a in small:
+            for b in small:
+                c.append('%s %s %s' % (a, op, b))
+    for op in ['+=', '-=', '*=', '/=', '%=', '<<=', '>>=', '&=', '|=', '^=']:
+        for a in ['1', '(-9223372036854775808)', '9223372036854775807', '79228162514264337593543950335', '5']:
+            for b in ['0', '(-1)', '1', '64', '4294967296', '8589934592', '9223372036854775807', '79228162514264337593543950335']:
+                c.append('a = %s; a %s %s; a' % (a, op, b))
+    for f in ['sum', 'mul', 'min', 'max']:
+        c += ['%s(9223372036854775807, 1)' % f, '%s(79228162514264337593543950335, 2)' % f, '%s((-9223372036854775808), (-1))' % f, '%s(0)' % f]
+    c += ['9223372036854775807++', '(-9223372036854775808)--', '79228162514264337593543950335++', '-(-9223372036854775808)', '- 79228162514264337593543950335', '+(-0.5)']
+    return c
+
+def long_parse_cases():
+    """long flat chains and moderately deep nesting (C01/C02/C05: any chain length, any nesting depth within the stack)"""
+    c = []
+    c.append(' + '.join(['a'] * 400))
+    c.append(' * '.join('v%d++' % i if i % 2 == 0 else 'v%d--' % i for i in range(300)))
+    c.append(' + '.join('v%d++ * w%d--' % (i, i) for i in range(150)))
+    c.append('; '.join('a = b++ + c * d--' for _ in range(200)))
+    c.append('; '.join('x%d = %d' % (i, i) for i in range(300)) + ';')
+    c.append('(' * 150 + '1' + ')' * 150)
+    c.append('[' * 150 + ']' * 150)
+    c.append('f(' * 120 + ')' * 120)
+    c.append(' '.join(['-'] * 150) + ' 1')
+    c.append(' '.join(['not'] * 100) + ' true')
+    c.append(' ? '.join(['a'] * 60) + ' : b' * 59)
+    c.append('a = ' * 150 + '1')
+    c.append(' '.join('a%d not in' % i for i in range(100)) + ' z')
+    c.append('[' + ', '.join(str(i) for i in range(500)) + ']')
+    c.append('{' + ', '.join('%d: %d' % (i, i) for i in range(300)) + '}')
+    c.append('f(' + ', '.join('g(%d)' % i for i in range(300)) + ')')
+    c.append('x' + '++' * 1 + ' + ' + ' + '.join('y%d++' % i for i in range(200)))
+    c.append("'" + 'é' * 500 + "'")
+    c.append('a' * 2000)
+    c.append('1' * 28 + ' + ' + '1' * 27)
     return c
 
 def conv_cases():
@@ -117,6 +174,10 @@ SCRIPTS = [
   dict(name='override_builtin_prefix_before_first_use', steps=[('reg_prefix', '-', dict(tag='neg')), ('exec', '-1', {})], expect=[None, ('val', 'List([String("neg"), Number(1)])')]),
   dict(name='override_builtin_postfix_before_first_use', steps=[('reg_postfix', '++', dict(tag='inc')), ('exec', '1++', {})], expect=[None, ('val', 'List([String("inc"), Number(1)])')]),
   dict(name='context_function_shadows_global', steps=[('reg_fn', 'one', dict(tag='global')), ('exec', 'one()', {})], expect=[None, ('val', 'Number(1)')]),
+  dict(name='failing_context_function_is_not_replaced_by_global', steps=[('reg_fn', 'boom', dict(tag='global')), ('reg_fn', 'boomT', dict(tag='global')), ('reg_fn', 'boomP', dict(tag='global')),
+        ('exec', 'boom()', {}), ('exec', 'boomT()', {}), ('exec', 'boomP(1)', {}), ('exec', 'x = [boomT(one()), one()]; y = one(); y', {}), ('exec', 'boomP', {}), ('exec', 'one() + boomT()', {})],
+       expect=[None, None, None, ('err',), ('err',), ('err',), ('err',), ('err',), ('err',)]),
+  dict(name='global_function_after_context_miss', steps=[('reg_fn', 'gg', dict(tag='global')), ('exec', 'gg(one())', {}), ('exec', 'gg(boom())', {})], expect=[None, ('val', 'String("global")'), ('err',)]),
   dict(name='postfix_registered_after_use', steps=[('parse', '5!!', {}), ('reg_postfix', '!!', dict(tag='ff')), ('parse', '5!!', {})], expect=[('reject',), None, ('ast', 'Postfix(Literal(Number(5)), "!!")')]),
   dict(name='word_postfix_registered_after_use', steps=[('parse', '3 squared', {}), ('reg_postfix', 'squared', dict(tag='sq')), ('parse', '3 squared', {})],
        expect=[('ast', 'Stmt([Literal(Number(3)), Reference("squared")])'), None, ('ast', 'Postfix(Literal(Number(3)), "squared")')]),
